@@ -49,13 +49,16 @@ Failing(o) ==
 (* backslash, followed by another literal with the same delimiter, swallows    *)
 (* its closing quote; the formula is rejected with #ERROR!.                    *)
 EndsBs(s) == s # <<>> /\ s[Len(s)] = 92
+StrItems(n) == IF n.k = "call" THEN n.args ELSE IF n.k = "arr" THEN n.items ELSE <<>>
 BsFollowed(n) ==
   \/ n.k = "bin" /\ n.l.k = "str" /\ EndsBs(n.l.s) /\ n.r.k = "str" /\ n.r.q = n.l.q
-  \/ n.k = "call" /\ Len(n.args) = 2 /\ n.args[1].k = "str" /\ EndsBs(n.args[1].s)
-        /\ n.args[2].k = "str" /\ n.args[2].q = n.args[1].q
+  \/ LET xs == StrItems(n) IN
+       \E i, j \in 1..Len(xs) : i < j /\ xs[i].k = "str" /\ EndsBs(xs[i].s) /\ xs[j].k = "str" /\ xs[j].q = xs[i].q
 DevBackslashQuote(o) ==
   /\ BsFollowed(o.ast)
-  /\ \A a \in 1..Len(o.vars) : o.vars[a].out.err = "#ERROR!" /\ o.vars[a].out.res.t = "blank"
+  /\ \A a \in 1..Len(o.vars) :
+        \/ (o.vars[a].out.err = "#ERROR!" /\ o.vars[a].out.res.t = "blank")
+        \/ OutcomeMatchesX(TopExpect(o.ast, o.env), o.vars[a].out)    \* (a backslash separator keeps the quotes apart)
 DevHolds(d, o) == CASE d = "DevBackslashQuote" -> DevBackslashQuote(o) [] OTHER -> FALSE
 
 Verdict(o) == LET f == Failing(o) IN
